@@ -237,7 +237,7 @@ void libc_state(int which, bool write) { if (G.active && self && self->in_op) { 
 void clear_range(const void *p, size_t n) {
     if (!G.active || !G.shadow) return;
     uintptr_t a = (uintptr_t)p & ~(uintptr_t)7, e = (uintptr_t)p + n;
-    if (n > (1u << 16)) return;
+    if (n > (1u << 24)) return;      // (was 64 KiB: with the shared-LIFO placement policy a 128 KiB stream block went from one thread to the next with the first one's records still on it - a false race in the thorough tier, 11.4)
     for (; a < e; a += 8) { Cell *c = cell_of(a >> 3, false); if (c) std::memset(c->r, 0, sizeof c->r); }
 }
 
